@@ -60,14 +60,16 @@ def gen_case(rng, tier):
     # tie-prone graphs: few distinct structures, so that equally frequent constraints abound
     triples = gen.gen_graph(rng, n_nodes=n_nodes, n_classes=rng.randint(1, 3), n_props=rng.randint(2, 5), kinds=kinds,
                             density=rng.choice([0.5, 0.7, 0.9]))
-    if not gen.classes_of(triples):
-        triples = sorted(set(triples) | {(gen.iri(gen.EX + "n0"), gen.iri(gen.RDF_TYPE), gen.iri(gen.EX + "C0"))}, key=repr)
+    tp = gen.CUSTOM_TYPE if rng.random() < 0.12 else gen.RDF_TYPE
+    triples = gen.retype(gen.ensure_class(triples), tp)
     allow_sm = channel in ("nt", "endpoint_on", "endpoint_off", "shape_map_local", "rdflib_graph")
     if channel == "shape_map_local":
-        target = {"shape_map_raw": gen.gen_shape_map(rng, triples)}
+        target = {"shape_map_raw": gen.gen_shape_map(rng, triples, type_prop=tp)}
     else:
-        target = gen.gen_target(rng, triples, allow_shape_map=allow_sm)
+        target = gen.gen_target(rng, triples, allow_shape_map=allow_sm, type_prop=tp)
     options = gen.gen_options(rng, allow_inverse=True)
+    if tp != gen.RDF_TYPE:
+        options["instantiation_property"] = tp
     if rng.random() < 0.15:
         options["detect_minimal_iri"] = True
     if rng.random() < 0.1:
